@@ -11,7 +11,8 @@ ID = "C04"
 ALGOS = ["lca", "thl", "exh", "ext_spfs", "base_spfs", "superdtl", "base_uspfs"]
 RULE = (
     "inputs as in C01-C03 (plain, ordered, unordered; segmental-loss cost 0 over-sampled; cost vectors NOT "
-    "restricted to the coherent region since validity does not depend on it) for all seven algorithms and both "
+    "restricted to the coherent region since validity does not depend on it; ordered inputs also with a prescribed "
+    "root order, possibly a strict supersequence of the leaf families) for all seven algorithms and both "
     "policies, plus multifurcating inputs (up to two polytomies) for the extended solvers, whose solutions are "
     "validated against the binary input they refer to and must keep the original leaf data.  Validity is "
     "evaluated by the Lean specification Spec.validSol on every returned solution.  Non-trivial = at least 3 "
@@ -38,6 +39,9 @@ def algos_for(case):
     out = [a for a in ALGOS if has or MODE[a] == "plain"]
     if case.get("only") == "unordered":
         out = [a for a in out if MODE[a] == "unordered"]
+    if case.get("root") is not None:
+        # a prescribed root order only has a documented meaning for the ordered solvers
+        out = [a for a in out if MODE[a] == "ordered"]
     return out
 
 
@@ -153,8 +157,17 @@ def gen_cases(ctx):
         k = rng.random()
         if k < 0.15:
             c = gen.rand_case(rng, 5, 5, 0, costs=any_costs(rng))
-        elif k < 0.35:
+        elif k < 0.27:
             c = gen.rand_case(rng, 4, 4, rng.randint(1, 3), plain=False, costs=any_costs(rng))
+        elif k < 0.35:
+            # ordered inputs WITH a prescribed root order (a permutation of the families or a strict common
+            # supersequence holding families that no leaf carries): "the root holds every family once" is then
+            # judged against the prescribed order (Spec.validSolPre); any cost vector
+            for _try in range(8):
+                c = solvers.ordered_case(ctx, rng, 4, 4, 3)
+                if c.get("root") is not None:
+                    break
+            c["costs"] = any_costs(rng)
         elif k < 0.5:
             c = gen.rand_case(rng, 5, 4, rng.randint(1, 4), plain=False, unordered=True, costs=any_costs(rng))
         elif k < 0.6:
